@@ -343,6 +343,37 @@ def one(case, pl):
         a_, b_ = run(random.Random(seed)), run(random.Random(seed))
         return {"seq": a_, "same": a_ == b_}
     res["mixed"] = guarded(mixed)
+    # BATCHED draws (k > 1) from equally seeded PRIVATE generators, while the global generators are in
+    # different states in the two runs: the batches must be identical; and a call that was handed a private
+    # generator should leave random / numpy.random alone
+    def batches():
+        pool = [("d1", d1), ("d2", d2)] + [("k%d" % j, build(v)) for j, (k, v) in enumerate(case["kern"])]
+        order = case.get("mixed_order", [])
+        def run(rng, gseed):
+            random.seed(gseed)
+            np.random.seed(gseed % 2**32)
+            g0, n0 = random.getstate(), np.random.get_state()[1].tobytes()
+            out = []
+            for j, ix in enumerate(order[:8]):
+                nm, d = pool[ix % len(pool)]
+                k = (2, 3, 1, 5)[j % 4]
+                try:
+                    r = FiniteDistribution.sample(d, rng=rng, k=k) if j % 2 else d.sample(rng=rng, k=k)
+                    out.append([nm, k, [enc(e) for e in r] if isinstance(r, list) else ["bare", enc(r)]])
+                except TypeError:       # UniformDistribution / DeterministicDistribution.sample take no k
+                    try:
+                        r = FiniteDistribution.sample(d, rng=rng, k=k)
+                        out.append([nm, k, [enc(e) for e in r] if isinstance(r, list) else ["bare", enc(r)]])
+                    except Exception as e:
+                        out.append([nm, k, "error:" + type(e).__name__])
+                except Exception as e:
+                    out.append([nm, k, "error:" + type(e).__name__])
+            touched = g0 != random.getstate() or n0 != np.random.get_state()[1].tobytes()
+            return out, touched
+        a_, ta = run(random.Random(seed), 111)
+        b_, tb = run(random.Random(seed), 222)
+        return {"seq": a_, "same": a_ == b_, "global_touched": bool(ta or tb)}
+    res["batches"] = guarded(batches)
     # one object as both operands
     res["self_and"] = guarded(lambda: items_of(d1 & d1))
     res["self_mix"] = guarded(lambda: items_of(d1 | d1))
